@@ -126,7 +126,20 @@ func init() {
 				return nil
 			}
 			// keep PC feasible: prune if the assumption is unsatisfiable here
-			if i.solver.CheckWith(c, false) == "unsat" {
+			if v, ok := i.evalRanges(c); ok {
+				if !v {
+					i.abort(abortPruned, "assumption contradicts the path condition")
+				}
+				return nil
+			}
+			feasible := false
+			if i.model != nil {
+				if mv, ok := evalTerm(c, i.model, map[int]uint64{}); ok && mv == 1 {
+					feasible = true
+					i.modelHits++
+				}
+			}
+			if !feasible && i.checkSide(i.solverFor(c), c, true) == "unsat" {
 				i.abort(abortPruned, "assumption infeasible")
 			}
 			i.assume(c)
@@ -138,6 +151,11 @@ func init() {
 			return nil
 		},
 		"verifReach": func(fr *frame, a []value) value {
+			if fr.i.pcHasF && fr.i.reached[nameArg(a[0])] == 0 {
+				if fr.i.fp().Check() != "sat" {
+					return nil
+				}
+			}
 			fr.i.reached[nameArg(a[0])]++
 			return nil
 		},
